@@ -56,8 +56,7 @@ def run_launch(files, launch, mode):
 
 def rejected(r, extras):
     c = extras.get("compile")
-    text = (c.out + c.err) if c is not None and c.cls != "ok" else (r.out + r.err)
-    return "Did not compile successfully" in text and core.BANNER not in r.err
+    return core.compile_rejected(c if c is not None and c.cls != "ok" else r)
 
 
 def run_modes(files, launch=None):
@@ -134,7 +133,7 @@ def work_neg(item):
         res["runs"] += 1
         text = r.out + r.err
         ran = SENTINEL in r.out or "init " in r.out
-        diag = "Did not compile successfully" in text
+        diag = core.has_compile_diagnostics(text)
         if r.cls == "fail" and diag and not ran:
             if not any(t in text for t in mm.neg_expected_diagnostic(nkind)):
                 res["inconclusive"] = "twin %s rejected for another reason: %s" % (ident, text[-300:])
@@ -332,7 +331,7 @@ def replay(path):
         for mode in ("run", "compile"):
             r, _, _ = core.run_program(files, mode=mode, cpu=10)
             ran = SENTINEL in r.out or "init " in r.out
-            okk = r.cls == "fail" and "Did not compile successfully" in r.out + r.err and not ran
+            okk = core.compile_rejected(r) and not ran
             print(mode, "->", r.cls, "rejected" if okk else "ACCEPTED / ran: %s" % r.lines()[:12])
             bad += 0 if okk else 1
         print("AGREES" if not bad else "DIFFERS")
